@@ -91,12 +91,12 @@ def VState.step (ct : Content K V C) (s : VState C) : Op K V → VState C × Res
     let ver := s.workingVersion
     let s' := { s with ivSet := false }
     match findVer s.versions ver with
-    | some c => if same then ({ s' with working := c, lastSaved := c, base := ver }, .version ver) else (s', .err)
+    | some c => if same then ({ s' with working := c, lastSaved := c, base := ver }, .version ver) else (s, .err)
     | none =>
       if latestVer s.versions < ver then
         let c := ct.commit ver s.working
         ({ s' with versions := s.versions ++ [(ver, c)], working := c, lastSaved := c, base := ver }, .version ver)
-      else (s', .err)
+      else (s, .err)   -- a commit that does not take place leaves the pending initial version pending
   | .rollback => ({ s with working := if s.base = 0 then ct.empty else s.lastSaved }, .unit)
   | .load target =>
     match s.load target with
